@@ -106,6 +106,10 @@ pub fn extra_alphabet() -> Vec<Value> {
         with_attack("U3", "\u{212a}1234"),                                                                             // Kelvin sign for K
         with_attack("U4", "t1234.001"),                                                                                // valid, lower case
         json!({"k": "load", "docs": [rule("G", &[("a", ".x == '1'")], None)]}),                                        // operand without `$`
+        json!({"k": "load", "docs": [rule("W", &[("$a", ".x == '1'")], Some("  "))]}),                                 // blank condition: not in the grammar
+        json!({"k": "load", "docs": [{"name": "N", "params": {"disable": false}, "matches": [["$a", ".x == '1'"]], "condition": "$a"}]}), // explicitly enabled
+        json!({"k": "load", "docs": [{"name": "O", "params": {}, "matches": [["$a", ".x == '1'"]]}, rule("O2", &[("$d", "rule(O)")], Some("$d"))]}), // empty params; a dependant
+        json!({"k": "load", "docs": [{"name": "V", "meta": {"attack": ["T4294967296", "T1059.99999999999999999999"]}, "matches": [["$a", ".x == '1'"]]}]}), // id numbers beyond u32/u64
     ]
 }
 
